@@ -4,6 +4,7 @@
 EXTENDS Client, Json
 CONSTANTS s1, s2, o1, o2, w1, w2
 IdOfDef == [s \in {s1, s2} |-> IF s = s1 THEN "id1" ELSE "id2"]
+IdOfSame == [s \in {s1, s2} |-> "id1"]
 
 PN(p) == CASE p = s1 -> "s1" [] p = s2 -> "s2" [] OTHER -> p
 ON(o) == CASE o = o1 -> 1 [] o = o2 -> 2 [] OTHER -> 0
@@ -25,6 +26,7 @@ Label ==
    clock |-> clock',
    tick |-> clock' # clock,
    setrto |-> IF rto' # rto THEN rto' ELSE 0,
+   dup |-> (DupMode /\ p = DupStart /\ pc[p] = "idle" /\ pc'[p] = "done" /\ ~closed),   \* refused duplicate Start/Do
    do |-> (p # "env" /\ loc'[p].w # None /\ pc[p] = "idle"),          \* this caller is Client.Do
    deliver |-> IF inbox = None /\ inbox' # None THEN [kind |-> inbox'.kind, id |-> inbox'.id] ELSE [kind |-> "", id |-> ""],
    ev |-> IF p # "env" /\ loc'[p].ev # None THEN [kind |-> loc'[p].ev.kind, id |-> loc'[p].ev.id] ELSE [kind |-> "", id |-> ""]]
